@@ -214,3 +214,48 @@ Lemma v3_equals_zero a b : @v3_equals ROps a b 0 = v3_eqbR a b.
 Proof. unfold v3_equals, v3_eqbR. rsimp. now rewrite !Rleb_abs0. Qed.
 Lemma v2_equals_zero a b : @v2_equals ROps a b 0 = v2_eqbR a b.
 Proof. unfold v2_equals, v2_eqbR. rsimp. now rewrite !Rleb_abs0. Qed.
+
+(* ---- orientation: from the face rule to the triangle normal *)
+Definition subR (a b : R * R * R) : R * R * R :=
+  let '(ax, ay, az) := a in let '(bx, by_, bz) := b in (ax - bx, ay - by_, az - bz).
+Definition dotR (a b : R * R * R) : R :=
+  let '(ax, ay, az) := a in let '(bx, by_, bz) := b in ax * bx + ay * by_ + az * bz.
+Definition crossR (a b : R * R * R) : R * R * R :=
+  let '(ax, ay, az) := a in let '(bx, by_, bz) := b in (ay * bz - az * by_, az * bx - ax * bz, ax * by_ - ay * bx).
+
+Lemma binet_cauchy d e n : dotR (crossR d e) (crossR d n) = dotR d d * dotR e n - dotR d n * dotR e d.
+Proof. destruct d as [[dx dy] dz], e as [[ex ey] ez], n as [[nx ny] nz]. unfold dotR, crossR. ring. Qed.
+
+Lemma orientation_normal (a b c n : R * R * R) :
+  dotR (subR b a) n = 0 -> dotR (subR c a) n < 0 -> subR b a <> (0, 0, 0) ->
+  dotR (crossR (subR b a) (subR c a)) (crossR (subR b a) n) < 0.
+Proof.
+  intros Hn Hc Hd. rewrite binet_cauchy, Hn.
+  assert (P : 0 < dotR (subR b a) (subR b a)).
+  { destruct (subR b a) as [[dx dy] dz]. unfold dotR.
+    destruct (Req_dec dx 0) as [->|Nx]; [destruct (Req_dec dy 0) as [->|Ny]; [destruct (Req_dec dz 0) as [->|Nz]; [congruence|]|]|]; nra. }
+  nra.
+Qed.
+
+(* ---- straight boundaries: for a field that is affine along the lattice edge the end point is the
+   exact zero crossing (within epsilon when a snapping branch applies) *)
+Theorem ms_interp_line_exact (p1 p2 : V2 ROps) (v1 v2 x : R) (f : V2 ROps -> R) :
+  (forall t, f (mkV2 (lerp (vx p1) (vx p2) t) (lerp (vy p1) (vy p2) t)) = lerp v1 v2 t) ->
+  straddles v1 v2 x ->
+  Rabs (f (@ms_interpolate ROps p1 p2 v1 v2 x) - x) < eps /\
+  (eps <= Rabs (x - v1) -> eps <= Rabs (x - v2) -> f (@ms_interpolate ROps p1 p2 v1 v2 x) = x).
+Proof.
+  intros Haff S. rewrite ms_interpolate_lerp, Haff. split.
+  - now apply interp_t_value.
+  - intros C1 C2. apply interp_t_exact; [destruct S; lra | assumption | assumption].
+Qed.
+Theorem mc_interp_plane_exact (p1 p2 : V3 ROps) (v1 v2 x : R) (f : V3 ROps -> R) :
+  (forall t, f (mkV3 (lerp (wx p1) (wx p2) t) (lerp (wy p1) (wy p2) t) (lerp (wz p1) (wz p2) t)) = lerp v1 v2 t) ->
+  straddles v1 v2 x ->
+  Rabs (f (@mc_interpolate ROps p1 p2 v1 v2 x) - x) < eps /\
+  (eps <= Rabs (x - v1) -> eps <= Rabs (x - v2) -> f (@mc_interpolate ROps p1 p2 v1 v2 x) = x).
+Proof.
+  intros Haff S. rewrite mc_interpolate_lerp, Haff. split.
+  - now apply interp_t_value.
+  - intros C1 C2. apply interp_t_exact; [destruct S; lra | assumption | assumption].
+Qed.
